@@ -144,6 +144,54 @@ def guard_hygiene(res):
                     ok = "hpke_verif" not in s.replace("#[cfg(hpke_verif)]", "") or s.startswith("//") or p.endswith("src/verif.rs")
                     if not ok:
                         bad.append(f"{os.path.relpath(p, REPO)}:{i}: {s}")
+    # what a guard attribute may be attached to: a scheduling point, a ledger line, the hook module, or an impl block
+    # whose only members are verif_* functions - nothing of the library proper. And the other way round: nothing that
+    # mentions the hook module or a verif_* function may exist outside such a guarded construct
+    import re
+    allowed_stmt = re.compile(r"^(crate::verif::point\(\d+\);|crate::verif::record_drop\(crate::verif::KIND_[A-Z_]+, &self\.0\);|pub mod verif;)$")
+    misuse = []
+    for dp, _, fs in os.walk(os.path.join(REPO, "src")):
+        for f in fs:
+            p = os.path.join(dp, f)
+            if not f.endswith(".rs") or p.endswith("src/verif.rs"):
+                continue
+            lines = open(p, errors="replace").read().splitlines()
+            covered = set()
+            for i, line in enumerate(lines):
+                if line.strip() != "#[cfg(hpke_verif)]":
+                    if "#[cfg(hpke_verif)]" in line and not line.strip().startswith("//"):
+                        misuse.append(f"{os.path.relpath(p, REPO)}:{i+1}: guard attribute shares a line with code: {line.strip()}")
+                    continue
+                covered.add(i)
+                j = i + 1
+                while j < len(lines) and (not lines[j].strip() or lines[j].strip().startswith("//")):
+                    covered.add(j)
+                    j += 1
+                nxt = lines[j].strip() if j < len(lines) else ""
+                if allowed_stmt.match(nxt):
+                    covered.add(j)
+                elif nxt.startswith("impl") and nxt.endswith("{"):
+                    indent = len(lines[j]) - len(lines[j].lstrip())
+                    k = j + 1
+                    while k < len(lines) and not (lines[k].startswith(" " * indent + "}") and len(lines[k].rstrip()) == indent + 1):
+                        k += 1
+                    body = lines[j:k + 1]
+                    fns = re.findall(r"\bfn\s+(\w+)", "\n".join(body))
+                    if not fns or any(not n.startswith("verif_") for n in fns):
+                        misuse.append(f"{os.path.relpath(p, REPO)}:{j+1}: guarded impl block defines something other than verif_* functions: {fns}")
+                    covered.update(range(j, k + 1))
+                else:
+                    misuse.append(f"{os.path.relpath(p, REPO)}:{j+1}: the guard is attached to library code, which therefore exists only in guard-on builds: {nxt[:120]}")
+            for i, line in enumerate(lines):
+                t = line.strip()
+                if i in covered or t.startswith("//"):
+                    continue
+                if re.search(r"\bverif_\w+|\bverif::|\bmod\s+verif\b", t):
+                    misuse.append(f"{os.path.relpath(p, REPO)}:{i+1}: hook code outside a `#[cfg(hpke_verif)]` construct (it is part of guard-off builds): {t[:120]}")
+    res.evals += 1
+    res.nontrivial.add("guard-attachment-scan")
+    if misuse:
+        res.v("guard-attachment", "with the verification guard off the crate is not unchanged: " + "; ".join(misuse[:4]), "\n".join(misuse))
     res.evals += 1
     if bad:
         res.v("guard-form", "the verification guard is used in a form other than a plain `#[cfg(hpke_verif)]` attribute, so guard-off and guard-on builds may differ in behaviour: " + "; ".join(bad[:5]), "\n".join(bad))
